@@ -30,7 +30,10 @@ CheckCase(o) ==
     \cup (IF o.ran /\ o.signChange /\ o.success /\ ~(o.gap # -1 /\ o.gap <= GapUnits) THEN {V(o, "C14.ResultWithinToleranceOfASignChange")} ELSE {})
     \cup (IF o.ran /\ o.success /\ ~(o.residualSmall \/ (o.gap # -1 /\ o.gap <= GapUnits)) THEN {V(o, "C14.SuccessImpliesRootOrSignChange")} ELSE {})
     \cup (IF o.ran /\ ~o.signChange /\ ~o.endZero /\ ~o.endSmall /\ ~o.anyRoot /\ o.success THEN {V(o, "C14.NoSignChangeNoSuccess")} ELSE {})
-    \cup (IF o.ran /\ ~o.agree /\ (o.signChange \/ ~(o.endSmall \/ o.anyRoot \/ o.endZero)) THEN {V(o, "C14.VectorisedAgreesWithScalar")} ELSE {})
+    \* agreement is demanded wherever the answer is determined: a sign change, nothing near zero at all, or an exact root at an end point
+    \* with no other root in the bracket (the remaining regimes - a function below the tolerance at an end, several roots - are ambiguous)
+    \cup (IF o.ran /\ ~o.agree /\ (o.signChange \/ ~(o.endSmall \/ o.anyRoot \/ o.endZero) \/ (o.endZero /\ ~o.anyRoot))
+          THEN {V(o, "C14.VectorisedAgreesWithScalar")} ELSE {})
 Init == i = 1 /\ bad = {}
 Next == /\ i <= Len(Cases)
         /\ bad' = bad \cup CheckCase(Cases[i])
